@@ -356,7 +356,7 @@ def run(M, rec, tier, seed, k, n):
                 apply(W_, rec, "compile")
                 rec.count("exhaustive_histories")
     # random longer histories with several compiles
-    for r in range(250 if tier == "quick" else 2500):
+    for r in range(250 if tier == "quick" else 8000):
         W_ = World(M, ("SX", "MX")[r % 2], rng)
         for _ in range(rng.randint(3, 10)):
             if not apply(W_, rec, rng.choice(OPS)):
